@@ -752,8 +752,21 @@ def prod(a, *args, **kwargs):
 
 
 @implements(np.var)
-def var(a, *args, **kwargs):
-    return np.var._implementation(np.asarray(a), *args, **kwargs) * a.units**2
+def var(a, axis=None, dtype=None, out=None, *args, **kwargs):
+    ret_units = a.units**2
+    if out is None:
+        return (
+            np.var._implementation(np.asarray(a), axis, dtype, *args, **kwargs)
+            * ret_units
+        )
+    # return a view of the out buffer (not a copy) so that callers such as
+    # np.nanstd, which take the square root in place, reach the buffer
+    res = np.var._implementation(
+        np.asarray(a), axis, dtype, np.asarray(out), *args, **kwargs
+    )
+    if getattr(out, "units", None) is not None:
+        out.units = ret_units
+    return _wrap_out_result(res, ret_units)
 
 
 @implements(np.trace)
